@@ -323,12 +323,79 @@ def _clear_caches():
                         pass
 
 
+INTERP_FLAGS = ("-O", "-OO")
+
+
+def child(mode: str, modname: str, arg, flag: str, timeout=1400):
+    """Run a unit / a replay in a child interpreter started with `flag`; returns the child's packed record."""
+    import base64
+    import pickle
+    import subprocess
+
+    import tempfile
+
+    last = None
+    for attempt in range(2):  # a child that dies without leaving its record is started once more before the run is declared broken
+        fd, out = tempfile.mkstemp(prefix="mdmc-child-", suffix=".pkl")
+        os.close(fd)
+        try:
+            r = subprocess.run([sys.executable, flag, "-W", "ignore::DeprecationWarning", "-m", "mdmc.childunit", mode, modname,
+                                base64.b64encode(pickle.dumps(arg)).decode(), out], capture_output=True, timeout=timeout)
+            try:
+                with open(out, "rb") as f:
+                    return pickle.loads(f.read())
+            except Exception as e:  # noqa: BLE001
+                last = f"child interpreter {flag} produced no record (rc={r.returncode}, {e!r}): {r.stderr.decode('latin-1')[-600:]}"
+        finally:
+            for pth in (out, out + ".tmp"):
+                try:
+                    os.unlink(pth)
+                except OSError:
+                    pass
+    raise HarnessError(last)
+
+
+def merge_child(rec: "Rec", packed: dict, flag: str):
+    """Fold a child's record into rec; violations keep their clause and get the interpreter flag in signature and witness."""
+    if "harness_error" in packed:
+        raise HarnessError(f"[python {flag}] " + packed["harness_error"])
+    for k, v in packed["n"].items():
+        rec.n[k] += v
+    for k, v in packed["notes"].items():
+        rec.notes[k] += v
+    for k, b in packed["h"].items():
+        a = array.array("Q")
+        a.frombytes(b)
+        rec.h[k].update(x ^ h64(flag) for x in a)
+    for key, v in packed["viol"].items():
+        # same signature as in the parent interpreter (a known finding stays known); the flag travels in the witness. size+1: if the
+        # parent interpreter reports the same signature its witness is preferred
+        v = dict(v, witness={"$interp": flag, "w": v["witness"]}, detail=f"[interpreter started with {flag}] " + v["detail"], size=v["size"] + 1)
+        cur = rec.viol.get(key)
+        if cur is None or (v["size"], repr(v["witness"])) < (cur["size"], repr(cur["witness"])):
+            if cur is not None:
+                v["count"] += cur["count"]
+            rec.viol[key] = v
+        else:
+            cur["count"] += v["count"]
+    for smp in packed["samples"][:1]:
+        rec.sample({"interpreter": flag, "sample": smp})
+
+
 def _call(arg):
     modname, unit = arg
     mod = importlib.import_module(modname)
     rec = Rec(mod.ID)
     WATCH.install()
     WATCH.hangs = 0
+    if unit and unit[0] == "interp":
+        # ("interp", flag, inner unit): the same unit, executed by a child interpreter with assert statements stripped
+        try:
+            WATCH.armed = False
+            merge_child(rec, child("unit", modname, unit[2], unit[1]), unit[1])
+        except HarnessError as e:
+            return {"harness_error": f"{e}", "unit": repr(unit)[:300]}
+        return rec.pack()
     try:
         mod.run_unit(unit, rec)
     except AbortUnit:
